@@ -12,7 +12,8 @@ OpSeqs13 == {<< >>} \cup {<<a>> : a \in Ops13} \cup {<<a, b>> : a \in Ops13, b \
 Cases13 == [kind : {"admission"}, limit : {0, 1, 2}, ext : {"none", "sync", "bad"}, ptarget : {"", "t2"}, pelems : {"", "/a", "/l[k=1]"}, ops : OpSeqs13]
 
 \* --- C14
-Tokens == {"admin", "adm", "admin2", "ops", "", "other", "t1", "AetherROCAdmin"}
+\* a group name is one token of the ";"-joined list the interceptor hands over: blanks and commas are part of the name
+Tokens == {"admin", "adm", "admin2", "ops", "", "other", "t1", "AetherROCAdmin", "zz admin", "ops,admin"}
 GroupSeqs == {<< >>} \cup {<<a>> : a \in Tokens} \cup {<<a, b>> : a \in Tokens, b \in Tokens}
               \cup {<<a, b, c>> : a \in {"adm", "", "other"}, b \in Tokens, c \in {"admin", "ops", "admin2"}}
 AdminSettings == {<< >>, <<"admin">>, <<"admin", "ops">>, <<"ops", "admin2">>}
